@@ -54,6 +54,7 @@ func (w *World) step(e Event, check bool) []mc.Violation {
 	w.curHold = e.Hold
 	w.seq = 0
 	w.cascade = w.cascade[:0]
+	w.learned = w.learned[:0]
 	var pkt *Packet
 	switch e.Kind {
 	case "up":
@@ -84,7 +85,22 @@ func (w *World) step(e Event, check bool) []mc.Violation {
 		w.failMask = 0
 		w.opsUsed[e.A]++
 	case "join":
+		var before, srcLeft map[string]bool
+		if w.sc.Oracles.C11 {
+			before = w.knownIDs(e.A)
+		}
 		_, _ = w.nodes[e.A].G.VJoin(w.nodes[e.B].Addr)
+		if before != nil {
+			srcLeft = map[string]bool{}
+			for _, md := range w.nodes[e.B].State.Nodes() {
+				srcLeft[md.ID] = md.Left
+			}
+			for id := range w.knownIDs(e.A) {
+				if !before[id] {
+					w.learned = append(w.learned, learn{o: e.A, id: id, via: "join-reply", src: e.B, srcKnewLeft: srcLeft[id]})
+				}
+			}
+		}
 		w.joinUsed++
 	case "digest":
 		w.curPerm = e.Perm
